@@ -1,12 +1,11 @@
 import FlacVerif.Driver.Proto
+import FlacVerif.Model.Scratch
 namespace FlacVerif.Drv
 open FlacVerif Proto
 
-/-- `fingerprint_window` of lpc.rs (after the fix keying the cache by the exact bit pattern).
-The same function is `Scratch.fingerprint` once `Model/Scratch.lean` is present; kept here so that the
-driver does not depend on it. -/
+/-- `fingerprint_window` of lpc.rs: the model function the cache theorems of C10 are about. -/
 def windowFingerprint (rect : Bool) (alphaBits : Nat) : Nat :=
-  if rect then 0x01 * 2 ^ 56 else 0x02 * 2 ^ 56 + alphaBits
+  Scratch.fingerprint (if rect then .rectangle else .tukey alphaBits)
 
 /-- `history` records: every call of a history made on one long-lived thread must equal the same
 call on a fresh thread (`same` is all ones), and the window-cache key is the model's. -/
